@@ -9,7 +9,7 @@ from xknx import XKNX
 from xknx.exceptions import ManagementConnectionError
 from xknx.management import management as mgmt_mod
 from xknx.telegram import IndividualAddress, tpci as T
-from xknx.telegram.apci import DeviceDescriptorRead, DeviceDescriptorResponse
+from xknx.telegram.apci import DeviceDescriptorRead, DeviceDescriptorResponse, MemoryRead
 
 from ..explore import Chooser, explore, finalize_states, replay_schedule
 from ..ref.cemi import encode_ldata
@@ -28,7 +28,10 @@ def frame(src: int, tpci_octet: int, apdu: bytes | None) -> bytes:
                         dst_is_group=False, src=src, dst=OWN, tpci_octet=tpci_octet, apdu=apdu)
 
 
-def make(n_requests: int):
+def make(n_requests: int, mixed: bool = False):
+    """`mixed`: requests alternate between A_DeviceDescriptor_Read and A_Memory_Read, and the device's 'other type' answer to one
+    is the right type for the other - a response rejected for its type must not be handed to a later request."""
+
     def scenario(ch: Chooser) -> list[tuple[str, str]]:
         viols: list[tuple[str, str]] = []
         saved_time = mgmt_mod.time
@@ -120,7 +123,9 @@ def make(n_requests: int):
                         # response
                         dseq = dev["seq"]
                         good = bytes.fromhex("034007b0")      # A_DeviceDescriptor_Response type 0 value 07B0
-                        other = bytes.fromhex("02400000ab")   # A_Memory_Response
+                        other = bytes.fromhex("02410010ab")   # A_Memory_Response, 1 octet at 0x0010
+                        if isinstance(tg.payload, MemoryRead):
+                            good, other = other, good
                         opt = RESPS[r]
                         if opt in ("response", "response-1s-later", "response-before-ack", "response-twice"):
                             loop.call_later(resp_t, deliver, frame(DEV, 0x40 | dseq << 2, good), f"data({dseq}) response")
@@ -153,7 +158,10 @@ def make(n_requests: int):
                     for i in range(n_requests):
                         t0 = loop.time()
                         try:
-                            resp = await conn.request(DeviceDescriptorRead(descriptor=0))
+                            if mixed and i % 2:
+                                resp = await conn.request(MemoryRead(address=0x10, count=1))
+                            else:
+                                resp = await conn.request(DeviceDescriptorRead(descriptor=0))
                             results.append((i, "ok", resp.tpci.sequence_number, type(resp.payload).__name__, t0, loop.time()))
                             returned.append(resp)
                         except ManagementConnectionError as exc:
@@ -181,7 +189,7 @@ def make(n_requests: int):
                     if t1 - t0 > MAX_REQUEST_S:
                         viols.append(("request-exceeds-time-bound", f"request #{i} took {t1 - t0:.2f}s (> {MAX_REQUEST_S}); results={results}; events={events}"))
                     if kind == "ok":
-                        if b != "DeviceDescriptorResponse":
+                        if b != ("MemoryResponse" if mixed and i % 2 else "DeviceDescriptorResponse"):
                             viols.append(("wrong-response-type-returned", f"request #{i} returned {b}; events={events}"))
                         if a != consumed % 16:
                             viols.append(("response-with-wrong-sequence-number", f"request #{i} returned a response numbered {a}, reference {consumed % 16}; results={results}; events={events}"))
@@ -230,7 +238,7 @@ SCENARIOS = {"p2p": make}
 def run(ctx: Ctx) -> None:
     bound = 4 if ctx.thorough else 2
     ctx.rule = (
-        f"real Management + P2PConnection over a fake cEMI layer (L_Data.con immediate): connect, 1-3 requests (A_DeviceDescriptor_Read), disconnect; for every numbered data frame the simulated device "
+        f"real Management + P2PConnection over a fake cEMI layer (L_Data.con immediate): connect, 1-3 requests (A_DeviceDescriptor_Read; also alternating with A_Memory_Read so that an answer of the wrong type for one request has the right type for the next), disconnect; for every numbered data frame the simulated device "
         f"chooses an acknowledgement from {ACKS} and a reaction from {RESPS} (frames delivered through the real handle_raw_cemi, ack and response in the same loop iteration by default); EVERY schedule "
         f"with <= {bound} deviations, plus a 17-request default run (number wrap). Per received frame: T_ACK sent iff open connection and expected/preceding number, acceptance iff expected number and "
         "no unconsumed response; per request: expected type, consecutive response numbers, each response once, ManagementConnectionError within 3+3+6 s; outgoing numbers +1 mod 16, repetition reuses its number"
@@ -239,6 +247,8 @@ def run(ctx: Ctx) -> None:
     ctx.assumptions = ["the canonical receive state is P2PConnection._expected_sequence_number and whether the response future is done (read before every delivered frame)"]
     for n in (1, 2, 3):
         explore(ctx, __name__, "p2p", (n,), bound=bound)
+    explore(ctx, __name__, "p2p", (2, True), bound=bound)
+    explore(ctx, __name__, "p2p", (3, True), bound=min(bound, 3))
     explore(ctx, __name__, "p2p", (17,), bound=0)
     finalize_states(ctx)
 
